@@ -28,22 +28,30 @@ int main(int argc, char* argv[])
     // Initialize LIKWID markers if enabled
     LIKWID_INIT();
 
-    // Initialize solver and set parameters from command-line arguments
-    GMGPolar solver;
-    solver.setParameters(argc, argv);
-    // Run Solver Setup with optional LIKWID markers
-    solver.setup();
-    // Execute Solve Phase with optional LIKWID markers
-    solver.solve();
+    try {
+        // Initialize solver and set parameters from command-line arguments
+        GMGPolar solver;
+        solver.setParameters(argc, argv);
+        // Run Solver Setup with optional LIKWID markers
+        solver.setup();
+        // Execute Solve Phase with optional LIKWID markers
+        solver.solve();
 
-    // Finalize LIKWID markers if enabled
-    LIKWID_CLOSE();
+        // Finalize LIKWID markers if enabled
+        LIKWID_CLOSE();
 
-    // Retrieve and print solution and timings
-    Vector<double>& solution = solver.solution();
-    const PolarGrid& grid    = solver.grid();
+        // Retrieve and print solution and timings
+        Vector<double>& solution = solver.solution();
+        const PolarGrid& grid    = solver.grid();
 
-    solver.printTimings();
+        solver.printTimings();
+    }
+    catch (const std::exception& e) {
+        // An option combination rejected by the parser, setup() or solve(): report it like a parse error.
+        std::cerr << "Error: " << e.what() << std::endl;
+        std::cerr << "Usage: " << argv[0] << " [options] ... (run with --help for the list of options)" << std::endl;
+        return 1;
+    }
 
     return 0;
 }
